@@ -121,7 +121,7 @@ def has_bad_tag(t, v):
     return v[0] >= len(t["fields"]) or has_bad_tag(t["fields"][v[0]], v[1])
 
 
-def byte_strings(rng, valid, maxbytes, n_random, thorough):
+def byte_strings(rng, valid, maxbytes, n_random, thorough, evolve=None):
     """byte strings for deserialization built from valid encodings: every truncation (sampled when long), extension with
     garbage, single-bit flips (hit length prefixes, tags, delimiter headers), random strings, the empty string"""
     res = []
@@ -137,6 +137,10 @@ def byte_strings(rng, valid, maxbytes, n_random, thorough):
     add(b"", "null")
     for enc in valid:
         add(enc, "valid")
+        if evolve is not None:
+            for b, why in evolve(enc):
+                if len(b) <= maxbytes + 12:
+                    add(b, why)
         cuts = range(len(enc)) if len(enc) <= (40 if thorough else 12) else sorted(set(rng.sample(range(len(enc)), 10 if thorough else 5)) | {1, len(enc) - 1})
         for c in cuts:
             add(enc[:c], "truncated")
@@ -275,7 +279,7 @@ class Campaign:
             out.setdefault((c["case"], sp["name"]), rec)
         if self.py is not None:
             for c in cases:
-                if c["klass"] != "common":
+                if c["klass"] not in ("common", "array-wild"):
                     continue
                 t = self.py.types[c["ti"]]
                 r = self.py.ser(t, c["v"])
@@ -464,9 +468,33 @@ def std_specs(ctx, sanitize=False, variants=True, cpp=True):
     return res
 
 
+def _array_wild(t, v, rng, in_array=False):
+    """a common value in which the elements of arrays of TRUNCATED unsigned integers whose storage is wider than the field take values above
+    the field's range: every target stores them (C arrays, std containers, NumPy arrays of the storage type) and must truncate.
+    returns (value, changed)"""
+    k = t["k"]
+    if k == "uint" and in_array and not t["sat"] and dsdl.store_w(t["w"]) > t["w"]:
+        sm = (1 << dsdl.store_w(t["w"])) - 1
+        return rng.choice([sm, (1 << t["w"]) | (v & 1), sm - 1, v | (1 << t["w"])]), True
+    if k in ("farr", "varr"):
+        res = [_array_wild(t["e"], x, rng, True) for x in v]
+        return [r[0] for r in res], any(r[1] for r in res)
+    if k == "struct":
+        res = [_array_wild(f, x, rng) for f, x in zip(t["fields"], v)]
+        return [r[0] for r in res], any(r[1] for r in res)
+    if k == "union":
+        r = _array_wild(t["fields"][v[0]], v[1], rng)
+        return (v[0], r[0]), r[1]
+    return v, False
+
+
 def value_cases(camp, rng, n_common, n_wild, n_boundary=10):
     cases = []
     for ti, t in enumerate(camp.types):
+        for j in (1, 2):
+            v, changed = _array_wild(t, common_value(t, dsdl.boundary_value(t, j)), rng)
+            if changed:
+                cases.append({"ti": ti, "v": v, "klass": "array-wild", "case": camp.new_case(), "prefill": 0xFF if j % 2 else 0})
         for j in range(n_boundary):
             cases.append({"ti": ti, "v": common_value(t, dsdl.boundary_value(t, j)), "klass": "common", "case": camp.new_case(), "prefill": 0xFF if j % 2 else 0})
             if n_wild:
@@ -504,7 +532,7 @@ def report(camp, ctx, rej, prop, extra_owner=None, also=None):
     n = 0
     for rid, clause in sorted(rej.items()):
         owner = (extra_owner or {}).get(clause, OWNER.get(clause, "?"))
-        info = camp.describe(rid)
+        info = dict(camp.describe(rid), rid=rid)
         if owner != prop and also is not None and also(clause, info):
             owner = prop
         if owner != prop:
